@@ -238,7 +238,19 @@ def confirm_sequential(ctx, lines, env):
     return None
 
 
+OPDIST = {}
+
+
 def run_program(ctx, exe, flavour, lines, env, tag):
+    for l in lines:
+        f = l.split()
+        key = f[1]
+        if f[1] in ("decomp", "xform") and len(f) >= 8:
+            key += "+scanlimit" if f[-2] != "0" else ""
+            key += "+maxmem" if f[-1] != "0" else ""
+        if f[1] == "comp" and len(f) >= 13 and f[-1] != "0":
+            key += "+maxmem"
+        OPDIST[key] = OPDIST.get(key, 0) + 1
     inp = ("\n".join(lines) + "\n").encode()
     e = dict(env)
     if flavour == "tsan":
@@ -419,6 +431,23 @@ def diagnose(ctx, ents, gen_path):
         for c, f in re.findall(r'\("([^"]*)", "([^"]*)"\)', m.group(1)):
             if c.startswith("tj3") or f != "processFlags":
                 bad.append("environment writer %s is now called from %s" % (f, c))
+    m = re.search(r"Definition errstate_writes[^\[]*\[([^\]]*)\]", txt)
+    mc = re.search(r"Definition errstate_calls[^\[]*\[([^\]]*)\]", txt)
+    if m and mc:
+        ws = re.findall(r'\("([^"]*)", "([^"]*)", "([^"]*)"\)', m.group(1))
+        cs = re.findall(r'\("([^"]*)", "([^"]*)"\)', mc.group(1))
+        for fn, fld, how in ws:
+            if fn in ("tj3GetErrorStr", "tjGetErrorStr2", "tjGetErrorStr", "tj3GetErrorCode", "tjGetErrorCode", "tj3Get"):
+                bad.append("error-state: query function %s writes this->%s (%s)" % (fn, fld, how))
+            if fld == "isInstanceError" and how not in ("0", "1"):
+                bad.append("error-state: %s assigns a non-literal to isInstanceError" % fn)
+            if fld == "isInstanceError" and how == "1" and not any(f == fn and g == "errStr" for f, g, _ in ws):
+                bad.append("error-state: %s raises isInstanceError without storing a message in the instance" % fn)
+        if ("my_output_message", "set_instance_error") not in cs:
+            bad.append("error-state: my_output_message no longer records the libjpeg message in the instance (set_instance_error not called)")
+        for c, f in cs:
+            if f == "set_instance_error" and c != "my_output_message":
+                bad.append("error-state: set_instance_error called from " + c)
     m = re.search(r"Definition asm_writable_data[^\[]*\[([^\]]*)\]", txt)
     if m and m.group(1).strip():
         bad.append("asm data outside SEG_TEXT/SEG_CONST: " + " ".join(m.group(1).split())[:300])
@@ -485,7 +514,7 @@ def run(ctx):
         for b in bad[:6]:
             ctx.log("inventory:", b)
         if bad:
-            ctx.broken_tie("inventory", "generated facts that break globals_are_benign / env_sites: " + " || ".join(bad[:6]))
+            ctx.broken_tie("inventory", "generated facts that break globals_are_benign / env_sites / source_errstate: " + " || ".join(bad[:6]))
     ctx.cov["inventory_entries"] = len(ents)
     ctx.cov["inventory_classes"] = {c: sum(1 for e in ents if e["cls"] == c) for c in sorted(set(e["cls"] for e in ents))}
     if ents:
@@ -531,6 +560,7 @@ def run(ctx):
                        "calls with flags=0, destroy/re-create) on their own instances, under 5 SIMD environments; one evaluation = one thread's "
                        "list whose concurrent log equalled its solo log; distinct = distinct log hashes")
     ctx.cov["traces_validated_against_impl"] = 0
+    ctx.cov["op_distribution"] = dict(sorted(OPDIST.items()))
     ctx.assume += [
         "the noninterference theorem is about the footprint model; that the C text's dynamic footprint is what the generated inventory says "
         "(C15_partial hypothesis within_inventory) is trusted to the translator's syntactic write/escape analysis, cross-checked against the "
